@@ -135,7 +135,7 @@ func Load(repo string, overlay map[string][]byte, patterns []string) (*Engine, e
 	e := &Engine{repo: repo, prog: prog, pkgs: pkgs, fset: prog.Fset, overlay: overlay,
 		intrinsics: map[*ssa.Function]intrinsicFn{}, overrides: map[*ssa.Function]*ssa.Function{},
 		maxSteps: 2000000, maxBranches: 400, maxDepth: 400, maxAlloc: 64, maxConcreteAlloc: 1 << 22,
-		solverKind: "z3", queryTimeoutMs: 20000, params: map[string]int{}, collisionFree: map[string]bool{},
+		solverKind: "z3", queryTimeoutMs: 60000, params: map[string]int{}, collisionFree: map[string]bool{},
 		shared: map[*ssa.Global]*value{}, poisoned: map[*ssa.Global]string{}, initFail: map[string]string{}}
 	// topological order
 	seen := map[*packages.Package]bool{}
